@@ -94,7 +94,7 @@ fn gen(rng: &mut Rng, tier: Tier) -> Vec<Case> {
 pub fn prop() -> PropDef {
     PropDef {
         id: "C16",
-        rule: "corpus, then boundary-directed histories (0-7 intervals incl. zero-length, coordinates 0..25; new(prefix) + inserts in ascending/descending/random order interleaved with merge_overlaps/set_cov; every query with endpoints in {e-1,e,e+1} ∪ {0}, up to 80 per case), then random histories (2-150 intervals, offsets up to u64::MAX-1e5). Non-trivial: >= 2 stored intervals and a query endpoint coincides with an interval endpoint. Distinct = distinct input token sequence.",
+        rule: "corpus, then boundary-directed histories (0-7 intervals incl. zero-length, coordinates 0..25; new(prefix) + inserts in ascending/descending/random order interleaved with merge_overlaps/set_cov; every query with endpoints in {e-1,e,e+1} ∪ {0}, up to 80 per case), then random histories (2-150 intervals, offsets up to u64::MAX-1e5). Non-trivial: >= 2 stored intervals and a query endpoint coincides with an interval endpoint. Thorough adds the exhaustive small scope: every sequence of <= 3 intervals over 0..=3 in bulk / insert-only / mixed / merged histories with every query over 0..=5. Distinct = distinct input token sequence.",
         observable: "Lapper::count and Lapper::find().count() per query",
         gen, exec, shrink, child: None,
     }
